@@ -45,8 +45,8 @@ OUTER:
 			// So, we notify/awake the merger here so that it can feed
 			// stackDirtyMid down to the persister as stackDirtyBase.
 			if m.waitDirtyIncomingCh != nil && // Merger is indeed asleep.
-				(m.stackDirtyMid != nil && !m.stackDirtyMid.isEmpty()) &&
-				(m.stackDirtyTop == nil || m.stackDirtyTop.isEmpty()) {
+				m.stackDirtyMid != nil && // Even without data, it might
+				m.stackDirtyTop == nil { // create/delete child collections.
 				// The collection lock is held here, so this must not
 				// block: a full pingMergerCh means that the merger
 				// already has pings pending that will wake it up.
